@@ -7,6 +7,8 @@
 (*   Sub(p,R,S,resp,resR)   M.sub_mesh_pattern(S)                          *)
 (*   Implies(p1,R1,p2,R2,q,c2,c1)  the code reported M1 inside M2 and the  *)
 (*                                 real Perm.contains gave c2, c1 for q    *)
+(*   All(ms,p2,R2,contains,avoids) M2.contains / M2.avoids called with all *)
+(*                                 patterns of the list ms (maybe empty)   *)
 (***************************************************************************)
 EXTENDS Mesh, Json, IOUtils
 Trace == JsonDeserialize(IOEnv.TRACE_FILE)
@@ -24,6 +26,11 @@ TImplies == /\ Ev.op = "Implies"
             /\ LET c2 == MContains(Ev.q, MMesh(Ev.p2, ToSetOf(Ev.R2)))
                    c1 == MContains(Ev.q, MMesh(Ev.p1, ToSetOf(Ev.R1))) IN
                bad' = IF (c2 => c1) /\ Ev.c2 = c2 /\ Ev.c1 = c1 THEN bad ELSE Flag("ContainmentImplied")
-TNext == l <= Len(Trace) /\ l' = l + 1 /\ (TOcc \/ TSub \/ TImplies)
+TAll == /\ Ev.op = "All"
+        /\ LET M2 == MMesh(Ev.p2, ToSetOf(Ev.R2))
+               In(k) == MOccInMesh(MMesh(Ev.ms[k].p, ToSetOf(Ev.ms[k].R)), M2) # {} IN
+           bad' = IF Ev.contains = (\A k \in DOMAIN Ev.ms : In(k)) /\ Ev.avoids = (\A k \in DOMAIN Ev.ms : ~In(k))
+                  THEN bad ELSE Flag("ContainsAvoidsAll")
+TNext == l <= Len(Trace) /\ l' = l + 1 /\ (TOcc \/ TSub \/ TImplies \/ TAll)
 TraceDone == l = Len(Trace) + 1 => PrintT(ToJson([verdict |-> bad, drift |-> <<>>, n |-> Len(Trace)]))
 =============================================================================
